@@ -5,6 +5,7 @@ package main
 // per case (virtual clock, exact quiescence). See /verif/DESIGN.md section 3.3.
 
 import (
+	"bytes"
 	"container/list"
 	"encoding/json"
 	"fmt"
@@ -633,6 +634,12 @@ func (ss *wSess) sendRaw(raw []byte) {
 				return
 			}
 		}
+	}
+	if ss.s.proto == LPOLL && int64(len(raw)) <= globals.maxMessageSize {
+		// the long-polling endpoint's reader (the requests of one such session may arrive in parallel
+		// HTTP requests; the reader takes the session's lock around the dispatch)
+		ss.s.readOnce(httptest.NewRecorder(), httptest.NewRequest(http.MethodPost, "/v0/channels/lp", bytes.NewReader(raw)))
+		return
 	}
 	ss.s.dispatchRaw(raw)
 }
